@@ -40,8 +40,16 @@ type HttpScn struct {
 	DevRules  []int     `json:"dev_rules"`  // PAN-OS: rules/services r<i> present in vsys1 of the device
 	DevSvcs   []int     `json:"dev_svcs"`   // NSX: services Netspoc-tcp_<80+i> present on the device
 	BadConfig bool      `json:"bad_config"` // the configuration answer is not decodable
-	FaultAt   int       `json:"fault_at"`   // -1 none
-	FaultKind string    `json:"fault_kind"` // 500 | close
+	// NSX: ids of the gateway policies the manager lists (the Netspoc-… ones are fetched one by one);
+	// page size of the services listing (0 = one page); number of empty pages of the group listing
+	// before the last one
+	NsxPolicies []string `json:"nsx_policies"`
+	PageSize    int      `json:"page_size"`
+	GroupPages  int      `json:"group_pages"`
+	// PAN-OS: how often the commit job answers PEND before OK
+	Pend      int    `json:"pend"`
+	FaultAt   int    `json:"fault_at"`   // -1 none
+	FaultKind string `json:"fault_kind"` // 500 | close
 }
 
 type HttpReq struct {
@@ -58,6 +66,7 @@ type httpSim struct {
 	logins  int
 	srv     *httptest.Server
 	journal []string
+	polls   int
 }
 
 func newHTTPSim(scn HttpScn) *httpSim {
@@ -108,6 +117,14 @@ func panVsysBody(idx []int) string {
 	}
 	return "<rulebase><security><rules>" + strings.Join(rules, "") + "</rules></security></rulebase><service>" +
 		strings.Join(svcs, "") + "</service>"
+}
+
+// a gateway policy with one rule (the same text on the device and in the Netspoc file)
+func nsxPolicyJSON(id string) string {
+	n := strings.TrimPrefix(id, "Netspoc-")
+	return fmt.Sprintf(`{"id":"%s","resource_type":"GatewayPolicy","rules":[{"resource_type":"Rule","id":"r1",`+
+		`"scope":["/infra/tier-0s/%s"],"direction":"OUT","ip_protocol":"IPV4","sequence_number":20,"action":"ALLOW",`+
+		`"source_groups":["ANY"],"destination_groups":["ANY"],"services":["ANY"]}]}`, id, n)
 }
 
 func nsxServiceJSON(i int) string {
@@ -223,7 +240,12 @@ func (s *httpSim) panos(w http.ResponseWriter, r *http.Request) {
 			"   <local-info>\n    <ha2-port>hsci</ha2-port>\n    <state>%s</state>\n   </local-info>\n  </group>\n </result>\n</response>\n",
 			ha.Mode, ha.State))
 	case typ == "op" && strings.HasPrefix(q.Get("cmd"), "<show><jobs>"):
-		ok("<response status=\"success\"><result><job>\n<result>OK</result>\n</job></result></response>\n")
+		s.polls++
+		res := "OK"
+		if s.polls <= s.scn.Pend {
+			res = "PEND"
+		}
+		ok("<response status=\"success\"><result><job>\n<result>" + res + "</result>\n</job></result></response>\n")
 	case typ == "config" && action == "get":
 		if s.scn.BadConfig {
 			ok("<INVALID>\n")
@@ -293,20 +315,70 @@ func (s *httpSim) nsx(w http.ResponseWriter, r *http.Request) {
 			w.Write([]byte("invalid"))
 			return
 		}
-		w.Write([]byte("{}"))
-	case r.Method == "GET" && path == "/policy/api/v1/infra/services":
 		var l []string
-		idx := append([]int{}, s.scn.DevSvcs...)
-		sort.Ints(idx)
-		for _, i := range idx {
-			l = append(l, nsxServiceJSON(i))
+		for _, id := range s.scn.NsxPolicies {
+			l = append(l, `{"id":"`+id+`"}`)
 		}
 		w.Write([]byte(`{"results":[` + strings.Join(l, ",") + `]}`))
+	case r.Method == "GET" && strings.HasPrefix(path, "/policy/api/v1/infra/domains/default/gateway-policies/"):
+		w.Write([]byte(nsxPolicyJSON(path[strings.LastIndex(path, "/")+1:])))
+	case r.Method == "GET" && path == "/policy/api/v1/infra/services":
+		pages := nsxServicePages(s.scn)
+		i := nsxPageIndex(r.URL.Query().Get("cursor"))
+		if i >= len(pages) {
+			w.Write([]byte("{}"))
+			return
+		}
+		var l []string
+		for _, k := range pages[i] {
+			l = append(l, nsxServiceJSON(k))
+		}
+		cur := ""
+		if i+1 < len(pages) {
+			cur = fmt.Sprintf(`,"cursor":"s%d"`, i+1)
+		}
+		w.Write([]byte(`{"results":[` + strings.Join(l, ",") + `]` + cur + `}`))
+	case r.Method == "GET" && path == "/policy/api/v1/infra/domains/default/groups":
+		i := nsxPageIndex(r.URL.Query().Get("cursor"))
+		if i < s.scn.GroupPages {
+			w.Write([]byte(fmt.Sprintf(`{"results":[],"cursor":"g%d"}`, i+1)))
+			return
+		}
+		w.Write([]byte("{}"))
 	case r.Method == "GET":
 		w.Write([]byte("{}"))
 	default:
 		w.Write([]byte("{}"))
 	}
+}
+
+// pages of the services listing: sorted indices in chunks of page_size
+func nsxServicePages(scn HttpScn) [][]int {
+	idx := append([]int{}, scn.DevSvcs...)
+	sort.Ints(idx)
+	if scn.PageSize <= 0 || len(idx) <= scn.PageSize {
+		return [][]int{idx}
+	}
+	var pages [][]int
+	for len(idx) > 0 {
+		n := scn.PageSize
+		if n > len(idx) {
+			n = len(idx)
+		}
+		pages = append(pages, idx[:n])
+		idx = idx[n:]
+	}
+	return pages
+}
+
+// cursor "" = page 0, "s<k>" / "g<k>" = page k
+func nsxPageIndex(cursor string) int {
+	if len(cursor) < 2 {
+		return 0
+	}
+	n := 0
+	fmt.Sscanf(cursor[1:], "%d", &n)
+	return n
 }
 
 func jsonStr(v any) string {
